@@ -10,6 +10,10 @@ package expr
 //@ func hashUserType
 //@   property C13 C09
 //@   opt maprange deterministic
+//@   requires ut != nil
+//@   let att = ptr(*AttributeExpr, utAttrOf(ut))
+//@   ensures* shape.names.only: ignoreFields ==> result != nil && load(result) == userTypePrefix + utNameOf(ut)
+//@   ensures* shape.no.tags: !ignoreFields && ignoreTags ==> result != nil && load(result) == userTypePrefix + ite(!ignoreNames, utNameOf(ut), "") + userTypeHashPrefix + hashSpec(att.Type, ignoreFields, ignoreNames, ignoreTags)
 
 //@ func hashObject
 //@   property C13 C09
@@ -97,3 +101,36 @@ package expr
 //@ func init
 //@   property C09
 //@   requires !envReadable
+
+// ---- shape of the hash (C13) ---------------------------------------------------------------
+// hash is the recursive dispatcher. It is ASSUMED to be a function of the type and the three flags
+// (true for types that do not reach themselves; the in-progress string shared through `seen` for
+// recursive types is not modelled). Each composite case is then proved to combine the hashes of its
+// children with the same flags, in the documented shape.
+//@ smt (declare-fun hashSpec (Iface Bool Bool Bool) String)
+//@ smt (declare-fun utNameOf (Iface) String)
+//@ smt (declare-fun utAttrOf (Iface) Int)
+//@ func hash
+//@   trusted
+//@   ensures result != nil && load(result) == hashSpec(dt, ignoreFields, ignoreNames, ignoreTags)
+//@   modifies mapOf(seen)
+
+//@ iface goa.design/goa/v3/expr.UserType.Name
+//@   params ut
+//@   ensures result == utNameOf(ut)
+//@ iface goa.design/goa/v3/expr.DataType.Name
+//@   params ut
+//@   ensures result == utNameOf(ut)
+//@ iface goa.design/goa/v3/expr.UserType.Attribute
+//@   params ut
+//@   ensures result == ptr(*AttributeExpr, utAttrOf(ut)) && result != nil && result <= alloc()
+
+//@ func hashArray
+//@   property C13
+//@   requires a != nil && a.ElemType != nil
+//@   ensures* shape: result != nil && load(result) == arrayPrefix + hashSpec(a.ElemType.Type, ignoreFields, ignoreNames, ignoreTags)
+
+//@ func hashMap
+//@   property C13
+//@   requires m != nil && m.KeyType != nil && m.ElemType != nil
+//@   ensures* shape: result != nil && load(result) == mapPrefix + hashSpec(m.KeyType.Type, ignoreFields, ignoreNames, ignoreTags) + mapElemPrefix + hashSpec(m.ElemType.Type, ignoreFields, ignoreNames, ignoreTags)
